@@ -26,6 +26,9 @@
 (*                                 returned                                *)
 (*          EndBlocked(total)      end of a run whose wrapped writer never *)
 (*                                 returns                                 *)
+(*          PBlocked               a producer inside Write cannot take its *)
+(*                                 next step by itself: it waits for a lock*)
+(*                                 or a condition another goroutine holds  *)
 (***************************************************************************)
 EXTENDS Integers, Sequences, FiniteSets, TLC
 
@@ -105,4 +108,7 @@ StuckG == FALSE
 \* C10: Write returns however long the wrapped writer blocks
 EndBlockedG(total) == Cardinality(returned) = total /\ returned = started
 EndBlockedE == UNCHANGED cvars
+\* C10: producers never wait - not for the wrapped writer, not for the consumer, not for each other (DiodeImpl: no producer
+\* action has a guard; NonBlocking).  On the real code: at no point of any schedule is a producer inside Write disabled.
+PBlockedG == FALSE
 =============================================================================
